@@ -36,6 +36,8 @@ HOSTILE = [
     '\\\'; raise SystemExit #'.replace('\\\\', ''), ']); query = None; ([', ') for x in [1]: pass\n', '__import__', 'eval',
     'exec("1")', 'lambda: 0', 'f"{1+1}"', "''' + 1 + '''", '"""', '#', '\r\nos.system("x")', '\x00', ' import os', 'é=1',
     '1+1', 'True', 'None', 'query', 'atom', 'unify', '__builtins__', 'ATOM_NIL', ':=', '\t', '`id`', '$(id)', '${x}',
+    # what a tool reading the generated FILE might interpret: an encoding declaration, UTF-7 shift sequences
+    'coding: utf_7', 'coding=utf_7', ' -*- coding: utf-7 -*-', 'coding: rot13', "+ACc- if atom(+ACc-injected+ACc-) else +ACc-", '+AAo-import os+AAo-',
     # every character that ends a line for some tool, followed by a statement
     '\rATTACK = atom #', '\r\nATTACK = 1', '\x0bATTACK = 1', '\x0cATTACK = 1', '\x1cATTACK = 1', '\x1dATTACK = 1',
     '\x1eATTACK = 1', '\x85ATTACK = 1', '\u2028ATTACK = 1', '\u2029ATTACK = 1',
@@ -330,6 +332,47 @@ def case_program(ctx, rng, c):
         if not same:
             return viol('debug_output_adds_code', {'stream_lines': full.count(chr(10))})
         c['debug_streams_checked'] = c.get('debug_streams_checked', 0) + 1
+        # the same output written to a file (as yldpc -o does) and loaded with load_script_from_file must behave
+        # like the text loaded from a string: same definitions, nothing executed at load time
+        import os
+        import tempfile
+        for variant, body in (('debug_generator_only', None), ('all_debug', full)):
+            if body is None:
+                class GCtx(DCtx):
+                    debug_filename = False
+                    debug_parser = False
+                    outf = io.StringIO()
+                body = GCtx.outf.getvalue() if False else None
+                gcode = real.Cm.compile_prolog_from_string(src, GCtx)
+                body = GCtx.outf.getvalue() + gcode
+            fd, path = tempfile.mkstemp(prefix='ypv-c12-', suffix='.py')
+            try:
+                with os.fdopen(fd, 'w', encoding='utf8', newline='') as f:
+                    f.write(body)
+                ypf = real.engine()
+                before_keys = set(ypf.eval_context)
+                ctx['audit'].window()
+                ctx['calls'].start()
+                try:
+                    try:
+                        ypf.load_script_from_file(path)
+                    finally:
+                        seen_f = ctx['calls'].stop()
+                        ev_f = ctx['audit'].close()
+                except Exception as e:
+                    return viol('file_with_debug_output_does_not_load', {'variant': variant, 'error': type(e).__name__ + ': ' + str(e)[:160]})
+                added = sorted(set(ypf.eval_context) - before_keys)
+                want_keys = sorted('%s_%d' % h for h in heads)
+                if added != want_keys:
+                    return viol('file_load_defines_other_names', {'variant': variant, 'expected': want_keys, 'got': added})
+                if seen_f:
+                    return viol('calls_executed_while_loading_file', {'variant': variant, 'callables': [repr(x)[:60] for x in seen_f[:3]]})
+                c['file_loads_checked'] = c.get('file_loads_checked', 0) + 1
+            finally:
+                try:
+                    os.unlink(path)
+                except OSError:
+                    pass
     except KeyError:
         pass
     except Exception as e:
